@@ -196,6 +196,9 @@ class _Run:
                 if last:
                     tape = c.ch.stop_tape("s")
                 if not ok:
+                    # a fit that raises leaves parameters and data alone,
+                    # whatever made it raise
+                    self.check_frame(est, fp0, snap0, [], "failed-fit(%s)" % type(r).__name__, exempt)
                     if not failed_kinds:
                         c.probe("fit_raised_on_generated_data:" + spec.name)
                         return
